@@ -94,6 +94,20 @@ def run(ctx):
             x0, xs, regime = gens.stream(r, n + 150, regime=r.choice(["walk", "plateau", "monotone", "spikes"]))
             c = numeric.scalar_case(name, n, x0, xs, "wide-length", extra={"regime": regime}, with_spec=(n <= (300 if ctx.tier == "quick" else 1000) and name != "MeanAbsDev"), hi_override=65534)
             wcases.append(c)
+    # every other length-parameterised method at two lengths just beyond the u8 range (a hard-coded 255/254 or a narrow cast
+    # anywhere shows as a rejected constructor or a different value), and convolution kernels with more than 254 taps
+    for name in ["TRIMA", "HMA", "Derivative", "RateOfChange", "Past", "LinearVolatility", "CCI", "RMA", "DMA", "TMA", "DEMA", "TEMA",
+                 "WSMA", "Vidya"]:
+        if name not in numeric.SCALAR:
+            continue
+        for n in (256, 300):
+            x0, xs, regime = gens.stream(r, n + 120, regime=r.choice(["walk", "plateau", "spikes"]))
+            wcases.append(numeric.scalar_case(name, n, x0, xs, "wide-length", extra={"regime": regime}, with_spec=False, hi_override=65534))
+    for taps in (255, 256, 300):
+        x0, xs, regime = gens.stream(r, taps + 100, regime="walk")
+        ws = [r.choice([1.0, 0.5, -0.25, 2.0, 0.0, 3.0]) for _ in range(taps)]
+        ws[0] = 1.0
+        wcases.append(numeric.conv_case(ws, x0, xs, "wide-length", {"regime": regime, "taps": taps}))
     for name in ["Highest", "Lowest", "HighestIndex", "LowestIndex", "SMM", "HighestLowestDelta"]:
         for n in lens:
             for regime in ("monotone", "walk", "plateau"):
@@ -110,8 +124,14 @@ def run(ctx):
         if isinstance(c, select.SCase) and c.oracle_fn is None and c.entry in select.SEL:
             n = c.extra["length"]
             xs_ = None
-    ctx.run_suite("wide-lengths-u16", wcases, HEADER16, features=("period_type_u16",), per_shard=3,
-                  theorem="Properties/C20.v (C20_sma_u16, ...; width-generic theorems of C02/C04)")
+    wimpl, _ = ctx.run_suite("wide-lengths-u16", wcases, HEADER16, features=("period_type_u16",), per_shard=3,
+                             theorem="Properties/C20.v (C20_sma_u16, ...; width-generic theorems of C02/C04)")
+    # every length used above lies in 2..65534: with a 16-bit PeriodType the constructor must accept it
+    for c, io in zip(wcases, wimpl):
+        if io and io[0] != 0 and io[0] != core.T_PANIC:
+            ctx.fail_input(dict(c.meta(), features=["period_type_u16"]),
+                           "the period_type_u16 build rejects the length %s of %s (outcome %s), which fits a 16-bit PeriodType" % (
+                               c.meta().get("length"), c.meta().get("entry"), io[0]), io)
     # ---------------- (c) single precision
     fcases = []
     r = rng.fork("f32")
